@@ -471,6 +471,18 @@ class Unit:
                 le = text_body.find('\n', hm.end())
                 le = len(text_body) if le < 0 else le
                 text_body = text_body[:le] + '\n' + t.rstrip() + text_body[le:]
+        # hintall: proof text inserted before EVERY line matching the regex; \\1.. refer to the regex groups
+        for kw, arg, t in sec.block('hintall'):
+            mm = re.match(r'before\s+/(.*)/\s*$', arg, re.S)
+            if not mm:
+                raise SpecError("bad hintall: " + arg)
+            out_lines = []
+            for bl in text_body.split('\n'):
+                hm = re.search(mm.group(1), bl)
+                if hm and not bl.strip().startswith('//'):
+                    out_lines.append(hm.expand(t.rstrip()))
+                out_lines.append(bl)
+            text_body = '\n'.join(out_lines)
         attrs = ''.join(a[1] + '\n' for a in sec.block('attr'))
         full = attrs + text_sig + '\n' + '\n'.join(contract) + ('\n' if contract else '') + '{' + text_body + '}'
         info = {'emitted': emitted, 'file': 'src/' + fname, 'path': path, 'sha': sha, 'line': line,
